@@ -42,6 +42,6 @@ func (Engine) Describe(prop string) core.Description {
 		},
 		RequiredProbes: []string{"http_upgraded", "http_upgraded_explicit_port", "plaintext_refused", "plaintext_allowed_when_reconfigured", "pooled_connection_reused", "hosts_sharing_an_address_both_served",
 			"same_host_two_ports_served", "h3_selected", "h3_offered_by_less_preferred_record_only", "wrong_cert_rejected", "host_override", "alias_followed", "failover_to_later_target", "unusable_record_skipped",
-			"http2_used", "ech_accepted", "poisoned_answers_present", "dial_after_decision"},
+			"http2_used", "ech_accepted", "poisoned_answers_present", "dial_after_decision", "blackholed_target"},
 	}
 }
